@@ -4,11 +4,11 @@ import YaegiVerif.Generated.C11
 import YaegiVerif.Expected.C11
 /- Line-protocol front end for C11 (glue, not a proof obligation).
 
-   prog (CUT…) (ITEM…)      → parts=<sizes of the texts> p=<obs> pat=<k> w=<obs> g=<obs> class=<label> dom=<0|1|2>
+   prog (CUT…) (ITEM…)      → parts=<sizes of the texts> p=<obs> pat=<k> w=<obs> g=<obs> class=<label> dom=<0|2> fwdvar=<0|1> crossdep=<0|1>
         g = the whole program under the facts of the unchanged source (validated against compiled Go)
         p = the session: every chunk of `split cuts items` handed to Eval as its maximal runs
         w = the whole program evaluated as one file
-   hist (ITEM…) (ITEM…) …   → h=<obs> hat=<k> class=<label>   (dom: 2 = domain of chunks_eq_whole, 1 = of texts_eq_whole_partial)
+   hist (ITEM…) (ITEM…) …   → h=<obs> hat=<k> class=<label>   (dom: 2 = domain of chunks_eq_whole, 0 = outside)
         the texts of a session, given explicitly (redefinition histories)
    obs  = <ok|parse|redeclared|undefined|defloop|panic|fuel>|<tag:value,…>|<name:value,…>
    pat/hat = index of the text at which the session stopped, or -
@@ -112,16 +112,25 @@ def showObs (s : State) : String :=
   dash (",".intercalate (s.r.out.map fun p => s!"{p.1}:{p.2}")) ++ "|" ++
   dash (",".intercalate ((globalsOf s).map fun p => s!"{p.1}:{p.2}"))
 
-/-- evaluate the texts of a session, remembering where it stopped -/
-def session (texts : List (List Item)) : State × Option Nat :=
-  let step := fun (acc : State × Option Nat × Nat) (t : List Item) =>
+/-- a text of declarations (compiled as a file) in which an initialiser depends — directly or
+    through the functions it mentions — on a variable that a later `var` of the same text declares:
+    the interpreter reorders the initialisers, the model does not -/
+def textFwd (s : State) (t : List Item) : Bool :=
+  match t with
+  | [] => false
+  | it :: _ => !it.isStmt && s.r.halt.isNone && !chunkOrderOk fx s t
+
+/-- evaluate the texts of a session, remembering where it stopped and whether a text had forward
+    dependencies between its initialisers -/
+def session (texts : List (List Item)) : State × Option Nat × Bool :=
+  let step := fun (acc : State × Option Nat × Nat × Bool) (t : List Item) =>
     let s' := evalText fx fuel acc.1 t
     let at' := match acc.2.1 with
       | some k => some k
-      | none => if s'.r.halt.isSome then some acc.2.2 else none
-    (s', at', acc.2.2 + 1)
-  let r := texts.foldl step (State.empty, none, 0)
-  (r.1, r.2.1)
+      | none => if s'.r.halt.isSome then some acc.2.2.1 else none
+    (s', at', acc.2.2.1 + 1, acc.2.2.2 || textFwd acc.1 t)
+  let r := texts.foldl step (State.empty, none, 0, false)
+  (r.1, r.2.1, r.2.2.2)
 
 def showAt : Option Nat → String
   | none => "-"
@@ -160,14 +169,20 @@ def textsCompile (texts : List (List Item)) : Bool :=
 def useBeforeDefine (texts : List (List Item)) : Bool :=
   texts.any fun t => !stmtsOk t
 
+/-- the shape of F11-1 (repaired): an initialiser of some text names a variable that the text does not declare -/
+def crossDep (texts : List (List Item)) : Bool :=
+  texts.any fun t => t.any fun it => it.initVars.any fun y => !(chunkVars t).contains y
+
+/-- a program that declares `main` itself has two of them once its statements are put into main:
+    a name declared twice (the class of F11-6). The classes of the findings repaired in round 3
+    (var-names-earlier-chunk-var F11-1, method-redefinition F11-7, main-declared F11-8) are gone:
+    such inputs are labelled by what else they are, and must agree. -/
 def classProg (items : List Item) (texts : List (List Item)) : String :=
-  if hasDup (items.filterMap Item.declName) || hasDupKeys (methodKeys items) then "redefinition"
-  else if !noMain State.empty items then "main-declared"
+  if hasDup (items.filterMap Item.declName) || hasDupKeys (methodKeys items) || !noMain items then "redefinition"
   else if !textsCompile texts then "forward-reference-across-chunks"
   else if useBeforeDefine texts then "use-before-define"
   else if !localsStayLocal items then "decl-uses-main-local"
   else if !phaseSortedAcross texts then "init-order-across-chunks"
-  else if texts.any (fun t => !depsLocal t) then "var-names-earlier-chunk-var"
   else if !DefBeforeUse fx State.empty items then "forward-reference-within-chunk"
   else "in-domain"
 
@@ -176,14 +191,11 @@ def classProg (items : List Item) (texts : List (List Item)) : String :=
 def classHist (all : List (List Item)) : String :=
   let texts := all.takeWhile homogeneous
   let items := texts.flatten
-  if hasDupKeys (methodKeys items) then "method-redefinition"
-  else if !noMain State.empty items then "main-declared"
-  else if hasDup (items.filterMap fun it => match it with | .type t => some t | _ => none) then "type-redefinition"
+  if hasDup (items.filterMap fun it => match it with | .type t => some t | _ => none) then "type-redefinition"
   else if !textsCompile texts then "forward-reference-across-chunks"
   else if useBeforeDefine texts then "use-before-define"
-  else if texts.any (fun t => !depsLocal t) then "var-names-earlier-chunk-var"
   else if texts.length < all.length then "mixed-text"
-  else if hasDup (items.filterMap Item.declName) then "history"
+  else if hasDup (items.filterMap Item.declName) || hasDupKeys (methodKeys items) then "history"
   else "history-plain"
 
 def handle (args : List Sexp) : String :=
@@ -197,19 +209,18 @@ def handle (args : List Sexp) : String :=
        let w := evalWhole fx fuel State.empty items
        -- the reading of the whole program that is validated against the toolchain: the facts of the unchanged source
        let g := evalWhole Expected.C11.facts fuel State.empty items
-       -- 2: domain of chunks_eq_whole (every cut list); 1: domain of texts_eq_whole_partial (this cut list); 0: outside
-       let dom := if Dom fx State.empty items && initsIndirect items then 2
-         else if Dom fx State.empty items && texts.all depsLocal then 1 else 0
+       -- 2: domain of chunks_eq_whole (every cut list); 0: outside
+       let dom := if Dom fx State.empty items then 2 else 0
        let parts := dash (",".intercalate (texts.map fun t => toString t.length))
        -- forward dependencies between the initialisers of one text (or of the whole file): not modelled
-       let fwd := !orderOk items || texts.any (fun t => !orderOk t)
-       s!"parts={parts} p={showObs p.1} pat={showAt p.2} w={showObs w} g={showObs g} class={classProg items texts} dom={dom} fwdvar={if fwd then 1 else 0}"
+       let fwd := !chunkOrderOk fx State.empty items || p.2.2
+       s!"parts={parts} p={showObs p.1} pat={showAt p.2.1} w={showObs w} g={showObs g} class={classProg items texts} dom={dom} fwdvar={if fwd then 1 else 0} crossdep={if crossDep texts then 1 else 0}"
      | _, _ => "bad-op")
   | .atom "hist" :: texts =>
     (match texts.mapM (fun t => match t with | .list its => its.mapM parseItem | _ => none) with
      | some texts =>
        let h := session texts
-       s!"h={showObs h.1} hat={showAt h.2} class={classHist texts} fwdvar={if texts.any (fun t => !orderOk t) then 1 else 0}"
+       s!"h={showObs h.1} hat={showAt h.2.1} class={classHist texts} fwdvar={if h.2.2 then 1 else 0} crossdep={if crossDep texts then 1 else 0}"
      | none => "bad-op")
   | _ => "bad-op"
 
